@@ -36,15 +36,16 @@ type c06Case struct {
 	Declared string  `json:"declared"`                      // declared cdiVersion
 	OneChar  bool    `json:"oneCharDigitName,omitempty"`    // digit-first names are a single digit
 	Pad      int     `json:"plainElementsBefore,omitempty"` // plain list elements placed before (and one after) the featured element
+	Variant  int     `json:"featureVariant,omitempty"`      // which spelling of each feature is used (0 = the plain one)
 }
 
-func addFeature(e *specs.ContainerEdits, f int, pad int) {
+func addFeature(e *specs.ContainerEdits, f int, pad int, variant int) {
 	switch f {
 	case fMountType:
 		for i := 0; i < pad; i++ {
 			e.Mounts = append(e.Mounts, &specs.Mount{HostPath: "/h", ContainerPath: fmt.Sprintf("/plain%d", i)})
 		}
-		e.Mounts = append(e.Mounts, &specs.Mount{HostPath: "/h", ContainerPath: "/c", Type: "tmpfs"})
+		e.Mounts = append(e.Mounts, &specs.Mount{HostPath: "/h", ContainerPath: "/c", Type: []string{"tmpfs", "bind", " ", "none"}[variant%4]})
 		if pad > 0 {
 			e.Mounts = append(e.Mounts, &specs.Mount{HostPath: "/h", ContainerPath: "/after"})
 		}
@@ -52,14 +53,16 @@ func addFeature(e *specs.ContainerEdits, f int, pad int) {
 		for i := 0; i < pad; i++ {
 			e.DeviceNodes = append(e.DeviceNodes, &specs.DeviceNode{Path: fmt.Sprintf("/dev/plain%d", i), Type: "c", Major: 1, Minor: 3})
 		}
-		e.DeviceNodes = append(e.DeviceNodes, &specs.DeviceNode{Path: "/dev/x", HostPath: "/dev/y", Type: "c", Major: 1, Minor: 3})
+		// (a hostPath equal to the path is still a use of the field)
+		e.DeviceNodes = append(e.DeviceNodes, &specs.DeviceNode{Path: "/dev/x", HostPath: []string{"/dev/y", "/dev/x", "y"}[variant%3], Type: "c", Major: 1, Minor: 3})
 		if pad > 0 {
 			e.DeviceNodes = append(e.DeviceNodes, &specs.DeviceNode{Path: "/dev/after", Type: "c", Major: 1, Minor: 3})
 		}
 	case fRdt:
-		e.IntelRdt = &specs.IntelRdt{ClosID: "c1"}
+		// every spelling of the section counts, also one that sets no class: only monitoring flags, one schema, nothing
+		e.IntelRdt = []*specs.IntelRdt{{ClosID: "c1"}, {}, {EnableCMT: true}, {EnableMBM: true}, {L3CacheSchema: "L3:0=f"}, {MemBwSchema: "MB:0=50"}}[variant%6]
 	case fGids:
-		e.AdditionalGIDs = append(e.AdditionalGIDs, 5)
+		e.AdditionalGIDs = append(e.AdditionalGIDs, []uint32{5, 0, 4294967295}[variant%3])
 		if pad > 0 {
 			e.AdditionalGIDs = append(e.AdditionalGIDs, 0)
 		}
@@ -91,9 +94,9 @@ func (c c06Case) build() *specs.Spec {
 					devs[p].Annotations = map[string]string{"k": "v"}
 				}
 			case p == -1:
-				addFeature(&s.ContainerEdits, f, c.Pad)
+				addFeature(&s.ContainerEdits, f, c.Pad, c.Variant)
 			default:
-				addFeature(&devs[p].ContainerEdits, f, c.Pad)
+				addFeature(&devs[p].ContainerEdits, f, c.Pad, c.Variant)
 			}
 		}
 	}
@@ -254,6 +257,7 @@ func TestC06Exhaustive(t *testing.T) {
 				var firstNeed string
 				c.OneChar = len(c.Places[fDigitName]) > 0 && count%2 == 0
 				c.Pad = int(count % 3)
+				c.Variant = int(count % 7)
 				for pi, perm := range perms {
 					c.Perm = perm
 					for vi, v := range declaredPool {
@@ -320,6 +324,7 @@ func genC06(t *rapid.T) c06Case {
 	c.Perm = rapid.Permutation(seq(nd)).Draw(t, "perm")
 	c.OneChar = rapid.Bool().Draw(t, "oneCharDigitName")
 	c.Pad = rapid.IntRange(0, 2).Draw(t, "plainElementsBefore")
+	c.Variant = rapid.IntRange(0, 11).Draw(t, "featureVariant")
 	if rapid.IntRange(0, 3).Draw(t, "declKind") == 0 {
 		c.Declared = rapid.OneOf(rapid.SampledFrom(declaredPool), rapid.StringMatching(`[0-9v. ]{0,7}`), rapid.String()).Draw(t, "declared")
 		// a leading "v" is a stated don't-care
